@@ -26,21 +26,24 @@ def start_world(cfg, objs=None, seed=42):
 
 
 def start_pos_dict(sp):
-    from AIDojoCoordinator.game_components import IP, Network
+    from AIDojoCoordinator.game_components import IP, Network, Service, Data
     ctrl = []
     for h in sp["ctrl"]:
         ctrl.append(h if isinstance(h, str) else IP(n2ip(h)))
     return {"known_networks": {Network(n2ip(a), m) for a, m in sp["nets"]},
             "controlled_hosts": ctrl, "known_hosts": {IP(n2ip(h)) for h in sp["hosts"]},
-            "known_data": {}, "known_services": {}}
+            "known_data": {IP(n2ip(h)): {Data(*d) for d in ds} for h, ds in sp.get("data", {}).items()},
+            "known_services": {IP(n2ip(h)): {Service(*x) for x in ss} for h, ss in sp.get("svcs", {}).items()}}
 
 
-def start_pos_term(sp):
+def start_pos_term(sp, I=None):
     def h(x):
         return "SRandom" if x == "random" else ("SAllLocal" if x == "all_local" else f"(SHost {x}%N)")
-    return ("{| sp_nets := [%s]; sp_hosts := [%s]; sp_ctrl := [%s] |}" %
+    svcs = "; ".join(f"({k}%N, [{'; '.join(svc_term(x, I) for x in sorted(v))}])" for k, v in sorted(sp.get("svcs", {}).items()))
+    data = "; ".join(f"({k}%N, [{'; '.join(data_term(x, I) for x in sorted(v))}])" for k, v in sorted(sp.get("data", {}).items()))
+    return ("{| sp_nets := [%s]; sp_hosts := [%s]; sp_ctrl := [%s]; sp_svcs := [%s]; sp_data := [%s] |}" %
             ("; ".join(f"({a}%N, {m}%N)" for a, m in sp["nets"]), "; ".join(f"{x}%N" for x in sp["hosts"]),
-             "; ".join(h(x) for x in sp["ctrl"])))
+             "; ".join(h(x) for x in sp["ctrl"]), svcs, data))
 
 
 class Recorder:
